@@ -309,17 +309,17 @@ def independence_case(ctx, rng, idx):
     """streams of different outputs / time points / individuals"""
     kind = ['predictive_outputs', 'predictive_times', 'population_outputs',
             'posterior_outputs', 'initial_parameters',
-            'prior_predictive_outputs'][idx % 6]
+            'prior_predictive_outputs', 'covariate_groups'][idx % 7]
     n = 3000 if ctx.tier == 'quick' else 30000
     seed = int(rng.integers(0, 2 ** 31 - 2))
     feats = {'kind': kind}
-    ctx.case((kind, idx // 6 % 8), True, sample=dict(feats, seed=seed))
+    ctx.case((kind, idx // 7 % 8), True, sample=dict(feats, seed=seed))
     pairs = []
     try:
         if kind in ('predictive_outputs', 'predictive_times'):
             pm, x = _pm(rng, n_out=2 + idx % 2)
             seed_arg = [seed, np.int64(seed), np.random.default_rng(seed)][
-                idx // 6 % 3]
+                idx // 7 % 3]
             feats['seed_type'] = type(seed_arg).__name__
             arr = pm.sample(x, TIMES, n_samples=n, seed=seed_arg,
                             return_df=False)
@@ -341,6 +341,37 @@ def independence_case(ctx, rng, idx):
             if np.array_equal(arr[:, :, 0], arr[:, :, 1]):
                 ctx.violation('streams_are_independent',
                               'identical_noise_for_patients', {}, feats)
+        elif kind == 'covariate_groups':
+            # individuals of different covariate sub-populations must not
+            # share their noise
+            kd = 'GLT'[idx // 7 % 3]
+            leaf = GP.make_leaf(kd, 1, True, 1, None, 1)
+            model = GP.build_chi_leaf(leaf, 1)
+            wrapper = ['bare', 'reduced'][idx // 21 % 2]
+            if wrapper == 'reduced':
+                model = chi.ReducedPopulationModel(model)
+            top = GP.leaf_top(rng, leaf, 1, strong_cov=True)
+            n_g = min(n, 1000)
+            groups = int(rng.integers(2, 4))
+            cov = (np.arange(n_g) % groups).astype(float)[:, None]
+            seed_arg = [seed, np.int64(seed)][idx // 7 % 2]
+            psi = np.asarray(model.sample(top, n_samples=n_g, seed=seed_arg,
+                                          covariates=cov), dtype=float)[:, 0]
+            th = np.real(leaf.vartheta(top, cov, n_g))
+            mu, sd = th[:, 0, 0], th[:, 1, 0]
+            z = (np.log(psi) - mu) / sd if kd == 'L' else (psi - mu) / sd
+            feats.update(kind_of_model=kd, wrapper=wrapper, groups=groups)
+            ctx.count('stream_independence_tests')
+            if len(np.unique(np.round(z, 9))) < n_g and kd != 'T':
+                ctx.violation('streams_are_independent',
+                              'identical_noise_across_covariate_groups',
+                              {'distinct': int(len(np.unique(
+                                  np.round(z, 9)))), 'n': n_g}, feats)
+                return
+            m_ = n_g // groups
+            a = psi[0:m_ * groups:groups]
+            b = psi[1:m_ * groups:groups]
+            pairs = [(a, b, 'k-th individuals of two covariate groups')]
         elif kind == 'prior_predictive_outputs':
             # a prior concentrated on one point: all variation is noise
             pm, x = _pm(rng, n_out=2)
@@ -404,5 +435,5 @@ def independence_case(ctx, rng, idx):
 FAMILIES = [
     Family('reproducibility', reproducibility_case, quick=8 * 36,
            thorough=8 * 400),
-    Family('independence', independence_case, quick=72, thorough=720),
+    Family('independence', independence_case, quick=84, thorough=840),
 ]
